@@ -66,3 +66,46 @@ uint64_t mcx_fd_signature(void)
 	closedir(d);
 	return h;
 }
+
+/* Private loopback for this (worker) process: a fresh network namespace has its
+ * own port space, so TIME_WAIT sockets left by other checks, other workers or
+ * earlier executions elsewhere cannot exhaust the ephemeral ports this harness
+ * needs.  Best effort: returns 0 when the namespace is in place, -1 when the
+ * process keeps the shared namespace (not permitted / loopback could not be
+ * brought up -- checked BEFORE committing by probing in a child). */
+#include <sched.h>
+#include <unistd.h>
+#include <sys/ioctl.h>
+#include <sys/socket.h>
+#include <sys/wait.h>
+#include <net/if.h>
+#include <netinet/in.h>
+#include <arpa/inet.h>
+static int netns_lo_up(void)
+{
+	struct ifreq ifr; int s = socket(AF_INET, SOCK_DGRAM, 0), rc = -1;
+	if (s < 0) return -1;
+	memset(&ifr, 0, sizeof ifr); strcpy(ifr.ifr_name, "lo");
+	if (ioctl(s, SIOCGIFFLAGS, &ifr) == 0) {
+		ifr.ifr_flags |= IFF_UP | IFF_RUNNING;
+		if (ioctl(s, SIOCSIFFLAGS, &ifr) == 0) rc = 0;
+	}
+	close(s);
+	if (rc == 0) { /* prove that 127.0.0.1 is usable */
+		struct sockaddr_in sin; int l = socket(AF_INET, SOCK_STREAM, 0);
+		memset(&sin, 0, sizeof sin); sin.sin_family = AF_INET; sin.sin_addr.s_addr = htonl(INADDR_LOOPBACK);
+		if (l < 0 || bind(l, (struct sockaddr *)&sin, sizeof sin) < 0 || listen(l, 1) < 0) rc = -1;
+		if (l >= 0) close(l);
+	}
+	return rc;
+}
+int mcx_private_netns(void)
+{
+	/* probe in a child first so that a half-working namespace is never kept */
+	pid_t p = fork(); int st = 0;
+	if (p < 0) return -1;
+	if (p == 0) _exit(unshare(CLONE_NEWNET) == 0 && netns_lo_up() == 0 ? 0 : 1);
+	if (waitpid(p, &st, 0) != p || !WIFEXITED(st) || WEXITSTATUS(st) != 0) return -1;
+	if (unshare(CLONE_NEWNET) != 0) return -1;
+	return netns_lo_up();
+}
